@@ -668,6 +668,14 @@ with PolarsImpl.impl_store.impl_manager as impl:
             return (x / (10**-digits)).round() * (10**-digits)
         return x.round(digits)
 
+    @impl(ops.round, Int(), Int())
+    def _round_int(x, digits):
+        # rounding an integer gives an integer (the division above would turn it into a float)
+        digits = pl.select(digits).item()
+        if digits < 0:
+            return ((x / (10**-digits)).round() * (10**-digits)).cast(pl.Int64)
+        return x
+
     @impl(ops.exp)
     def _exp(x):
         return x.exp()
